@@ -108,7 +108,9 @@ def run(ck):
                         ck.report(key, "colour escapes %s although stderr %s a terminal, NO_COLOR is %s and %s" % (
                             "appear" if styled else "are missing", "is" if tty else "is not", "unset" if nocolor is False else "set (to %r)" % ("1" if nocolor is True else nocolor),
                             {0: "no guard exists", 1: "a plain-output guard is alive", 2: "an outer plain-output guard is alive (an inner one was dropped)", 3: "a guard was created and dropped before"}[guard]),
-                                  dict(tty=tty, NO_COLOR=nocolor, guard_scenario=guard, styled=styled, expected_styled=want, output=text[:300]))
+                                  dict(tty=tty, NO_COLOR=nocolor, guard_scenario=guard, styled=styled, expected_styled=want, output=text[:300],
+                                       note=None if styled else "the statement only forbids colour where it must not appear; missing colour breaks the model's 'iff' (C17_colour), not the property"),
+                                  no_input=not styled)
         # colour must follow the environment at the time of each failure, whatever failed before
         envp = {k: v for k, v in ENV.items() if k != "NO_COLOR"}
         r0 = req.replace(" 1 %s 2 " % hexs(src), " 0 %s 2 " % hexs(src), 1)
@@ -128,7 +130,7 @@ def run(ck):
                 cdist["history %s step %d styled=%d" % (name, step, styled)] = 1
                 if styled != want:
                     ck.report("colour:history:%s" % name, "the colour decision of a report depends on earlier reports in the process (step %d of the sequence: %s)" % (step, "styled" if styled else "plain"),
-                              dict(sequence=name, step=step, styled=styled, expected_styled=want, requests=[l[:60] for l in lines]))
+                              dict(sequence=name, step=step, styled=styled, expected_styled=want, requests=[l[:60] for l in lines]), no_input=not styled)
         ck.corr_record("T5 colour matrix (child processes with stderr on a pty / a pipe x NO_COLOR x {no guard, guard alive, outer guard alive + inner dropped, guard dropped}): styled iff terminal, NO_COLOR unset and no live guard",
                        len(cdist), len(cdist), 0, cdist, samples=[dict(tty=True, NO_COLOR=False, guard=2)], exhaustive=True, rule="the full 2 x 2 x 4 matrix plus NO_COLOR set to the empty string and to 0; all distinct")
     finally:
